@@ -400,6 +400,8 @@ pub struct Sim {
     pub auto_forward: bool,
     /// every host call made so far (for replays with insertions)
     pub evlog: Vec<Ev>,
+    /// when set, received frames and timestamps are mutated towards extreme values (C03)
+    pub mutator: Option<crate::Rng>,
     /// parent port identity (clock, port) after the last call
     pub parent: (u64, u16),
 }
@@ -573,6 +575,7 @@ impl Sim {
             states: vec![4; n],
             auto_forward: true,
             evlog: Vec::new(),
+            mutator: crate::gens::take_mutator(),
             parent: (0, 0),
         };
         let instance = sim.instance;
@@ -698,6 +701,10 @@ impl Sim {
         if self.panicked {
             return false;
         }
+        let ev = match self.mutator.as_mut() {
+            Some(r) => mutate_event(r, ev),
+            None => ev,
+        };
         self.last_frames.clear();
         take_log();
         LOCK_DEPTH.with(|c| c.set(0));
@@ -948,3 +955,99 @@ fn print_actions(
     }
 }
 
+
+
+const TS_EXTREMES: [u128; 6] = [
+    0,
+    1,
+    ((1u128 << 63) << 32) - 1,
+    ((1u128 << 63) - 1) << 32,
+    (999_999_999u128 << 32) | 0xffff_ffff,
+    ((1u128 << 48) * 1_000_000_000u128) << 32,
+];
+
+pub fn mutate_frame(r: &mut crate::Rng, f: &mut Vec<u8>) {
+    match r.below(10) {
+        0 => {
+            if f.len() >= 16 {
+                let c: i64 = *r.pick(&[i64::MAX, i64::MIN, -1, i64::MAX - 65535, (1i64 << 62), -(1i64 << 62), 1 << 63 - 1]);
+                f[8..16].copy_from_slice(&c.to_be_bytes());
+            }
+        }
+        1 => {
+            if f.len() >= 4 {
+                let l = f.len() as i64;
+                let v = *r.pick(&[33i64, 34, l - 1, l, l + 1, 2048, 65535, 0]);
+                f[2..4].copy_from_slice(&(v as u16).to_be_bytes());
+            }
+        }
+        2 => {
+            let n = *r.pick(&[0usize, 1, 2, 33, 34, 43, 44, 53, 54, 63, 64]);
+            f.truncate(n.min(f.len()));
+        }
+        3 => {
+            // pad with a well-formed TLV up to a boundary length
+            let target = *r.pick(&[1022usize, 1024, 1026, 2046, 2048]);
+            if f.len() + 4 <= target && f.len() >= 34 {
+                let vlen = target - f.len() - 4;
+                let ty: u16 = *r.pick(&[0x4000u16, 8, 3, 0x7f00]);
+                f.extend_from_slice(&ty.to_be_bytes());
+                f.extend_from_slice(&(vlen as u16).to_be_bytes());
+                f.extend(r.bytes(vlen));
+                let l = f.len() as u16;
+                f[2..4].copy_from_slice(&l.to_be_bytes());
+            }
+        }
+        4 => {
+            // random garbage up to the largest buffer
+            let target = *r.pick(&[100usize, 1024, 2048]);
+            while f.len() < target {
+                f.push(r.next() as u8);
+            }
+        }
+        5 => {
+            if f.len() >= 64 && f[0] & 0xf == 0xb {
+                let v: u16 = *r.pick(&[254u16, 255, 256, 65535]);
+                f[61..63].copy_from_slice(&v.to_be_bytes());
+            }
+        }
+        6 => {
+            if f.len() >= 44 {
+                let s: u64 = *r.pick(&[0u64, (1 << 48) - 1, 1 << 47]);
+                f[34..40].copy_from_slice(&s.to_be_bytes()[2..8]);
+                let n: u32 = *r.pick(&[0u32, 999_999_999, 0xffff_ffff]);
+                f[40..44].copy_from_slice(&n.to_be_bytes());
+            }
+        }
+        7 => {
+            if f.len() > 34 {
+                let i = 34 + r.below((f.len() - 34) as u64) as usize;
+                f[i] = r.next() as u8;
+            }
+        }
+        _ => {}
+    }
+}
+
+pub fn mutate_event(r: &mut crate::Rng, ev: Ev) -> Ev {
+    match ev {
+        Ev::RecvEvent(p, mut f, t) => {
+            if r.chance(1, 3) {
+                mutate_frame(r, &mut f);
+            }
+            let t = if r.chance(1, 6) { *r.pick(&TS_EXTREMES) } else { t };
+            Ev::RecvEvent(p, f, t)
+        }
+        Ev::RecvGeneral(p, mut f) => {
+            if r.chance(1, 3) {
+                mutate_frame(r, &mut f);
+            }
+            Ev::RecvGeneral(p, f)
+        }
+        Ev::SendTimestamp(p, k, t) => {
+            let t = if r.chance(1, 5) { *r.pick(&TS_EXTREMES) } else { t };
+            Ev::SendTimestamp(p, k, t)
+        }
+        e => e,
+    }
+}
